@@ -68,6 +68,12 @@ def gen_case(rng, idx, thorough):
 
     stop_class = rng.choice(["before", "during", "during", "during_flushed", "after_flush", "after_flush",
                              "after_idle", "after_noflush"])
+    if idx % 11 in (5, 6) and profile != "slowdrain" and workers >= 2:
+        # Stop is called by the handler of one of the requests (a "shutdown" request) while the other workers go on.
+        # (With ONE worker the call cannot return when the queue is full: Stop waits for the subscriptions to drain into
+        # the queue and the only goroutine that empties the queue is the one waiting. The property's Stop is the server
+        # owner's, concurrent with the request stream; that case is left out and described in DESIGN.md 0.8.)
+        stop_class = "from_handler"
     sync_stop = rng.random() < 0.5
     if profile == "slowdrain":
         stop_class = "after_flush"
@@ -89,7 +95,17 @@ def gen_case(rng, idx, thorough):
         if sync_stop:
             ops.append({"op": "stop_wait"})
 
-    if stop_class == "before":
+    if stop_class == "from_handler":
+        k = rng.randrange(0, n)
+        pub(k)
+        pub(1)
+        for o in reversed(ops):
+            if o["op"] == "pub":
+                o["stop_in"], o["reply"] = True, True
+                break
+        pub(n - k - 1)
+        ops.append({"op": "flush"})
+    elif stop_class == "before":
         stop()
         pub(min(n, 10))
     elif stop_class in ("during", "during_flushed"):
